@@ -1,6 +1,7 @@
 import HbsModel.Props.C07
 import HbsModel.Props.C02
 import HbsModel.Lemmas.EachIndex
+import HbsModel.Lemmas.EachKey
 /-
   C07 (continued)  `@index` at source level: `{{#each v}}{{@index}}{{/each}}` writes 0, 1, 2, … in order.
 -/
@@ -214,6 +215,217 @@ theorem each_block_index_counts_in_order (r : Registry) (fs : FS) (L R : Str) (d
   have := render_writes_templateK (xs.toList.length + 15) r data none ets m { rootTemplate := none } hlen' hw
   simp only [Tmpl.name] at this ⊢
   rw [this, htxt]
+
+
+/-- the body `{{@key}}` rendered in a state whose innermost block holds `@key = k`: the escaped text of `k` -/
+theorem render_key_template (reg : Registry) (root : Json) (rc0 rcS : RC) (out : Out) (lc : Nat × Nat) (fuel : Nat) (k : Str)
+    (bI : Block) (brest : List Block)
+    (hi : rc0.indentString = none) (hct : rc0.currentTemplate = none) (hmc : rc0.modifiedCtx = none) (hde : rc0.disableEscape = false)
+    (hl : assocGet rc0.localHelpers ['@', 'k', 'e', 'y'] = none) (hr : assocGet reg.helpers ['@', 'k', 'e', 'y'] = none)
+    (hbl : rc0.blocks = bI :: brest) (hidx : bI.locals.get (str "key") = some (Json.str k))
+    (hq : Quiet rc0 rcS) (hf : out.failAt = none) :
+    ∃ rc2 out2, renderTemplate reg root (fuel + 6) (Tmpl.empty.pushElement (.expr PlainText.keyHT) lc.1 lc.2) rcS out = .ok () rc2 out2
+      ∧ Quiet rc0 rc2 ∧ out2.failAt = none ∧ out2.text = out.text ++ reg.escape (Json.str k).render := by
+  have hqB : Quiet rc0 { rcS with currentTemplate := none } := by
+    have := Quiet.setTemplate hq
+    rw [hct] at this
+    exact this
+  have hblB : rcS.blocks = bI :: brest := by rw [hq.blocks, hbl]
+  have hev : evaluate2 root (.localVar 0 ['k', 'e', 'y'] ['@', 'k', 'e', 'y']) { rcS with currentTemplate := none } out
+      = .ok (.derived (Json.str k)) { rcS with currentTemplate := none } out := by
+    have : bI.locals.get ['k', 'e', 'y'] = some (Json.str k) := hidx
+    simp [evaluate2, RM.bnd_apply, hblB, this]
+  have hel : renderElem reg root (fuel + 4) (.expr PlainText.keyHT) { rcS with currentTemplate := none } out
+      = indentAwareWrite (reg.escape (Json.str k).render) { rcS with currentTemplate := none } out :=
+    expr_path_escapes_once reg root fuel PlainText.keyHT (.localVar 0 ['k', 'e', 'y'] ['@', 'k', 'e', 'y'])
+      _ out (.derived (Json.str k)) rfl rfl (by rw [hqB]; exact hl) hr (by rw [hqB]; exact hmc) (by rw [hqB]; exact hde) hev rfl
+  obtain ⟨rc2, out2, hw, hq2, hf2, ht2⟩ := indentAwareWrite_quiet rc0 hi (reg.escape (Json.str k).render) _ out hqB hf
+  have hmA := quiet_modifyAux rc0 rcS (fun r => { r with currentTemplate := (Tmpl.empty.pushElement (.expr PlainText.keyHT) lc.1 lc.2).name }) out hq hqB
+  have hq3 : Quiet rc0 { rc2 with currentTemplate := rcS.currentTemplate } := by
+    have := Quiet.setTemplate hq2
+    rw [← Quiet.template hq] at this
+    exact this
+  have hmB := quiet_modifyAux rc0 rc2 (fun r => { r with currentTemplate := rcS.currentTemplate }) out2 hq2 hq3
+  refine ⟨_, out2, ?_, hq3, hf2, ht2⟩
+  rw [show fuel + 6 = (fuel + 4) + 1 + 1 by omega]
+  simp only [renderTemplate, RM.bind_def, RM.bnd_apply, RM.get_apply, hmA]
+  simp only [Tmpl.empty, Tmpl.pushElement, Tmpl.name, Tmpl.elements, Tmpl.mapping, List.nil_append, renderElems,
+    RM.bind_def, RM.bnd_apply, RM.mapErr, hel, hw, RM.pure_def, RM.ret_apply, Option.isNone_none]
+  simp only [↓reduceIte]
+  exact hmB
+
+/-- the loop of `each` over ANY list of array items with the body `{{@key}}`: the escaped text of each item's index is written,
+    in order; the state stays as it was up to the front block (the iteration variables) and the write flags -/
+theorem eachLoop_key (reg : Registry) (root : Json) (lc : Nat × Nat) (h : HelperI) (path : Option (List Str)) (len : Nat)
+    (hr : assocGet reg.helpers ['@', 'k', 'e', 'y'] = none) :
+    ∀ (items : List (Nat × Option Str × Str × Json)) (fuel : Nat) (rcS : RC) (out : Out) (b : Block) (brest : List Block),
+      (∀ it ∈ items, it.2.1 = some it.2.2.1) →
+      rcS.indentString = none → rcS.currentTemplate = none → rcS.modifiedCtx = none → rcS.disableEscape = false →
+      assocGet rcS.localHelpers ['@', 'k', 'e', 'y'] = none →
+      rcS.blocks = b :: brest → out.failAt = none →
+      ∃ rc' out', eachLoop reg root (fuel + items.length + 7) (Tmpl.empty.pushElement (.expr PlainText.keyHT) lc.1 lc.2) h path len items rcS out = .ok () rc' out'
+        ∧ (∃ b', Quiet { rcS with blocks := b' :: brest } rc') ∧ out'.failAt = none
+        ∧ out'.text = out.text ++ (items.map (fun it => reg.escape (Json.str it.2.2.1).render)).flatten := by
+  intro items
+  induction items with
+  | nil =>
+    intro fuel rcS out b brest _ hi hct hmc hde hl hbl hf
+    refine ⟨rcS, out, by simp [eachLoop], ⟨b, ?_⟩, hf, by simp⟩
+    have : ({ rcS with blocks := b :: brest } : RC) = rcS := by rw [← hbl]
+    rw [this]; exact Quiet.refl _
+  | cons it rest ih =>
+    intro fuel rcS out b brest hkeys hi hct hmc hde hl hbl hf
+    obtain ⟨i, key, rel, v⟩ := it
+    have hkey : key = some rel := hkeys (i, key, rel, v) (by simp)
+    subst hkey
+    let rcA : RC := { rcS with blocks := eachIterBlock b h path i len (some rel) rel v :: brest }
+    have hmod : modifyFrontBlock (fun b => eachIterBlock b h path i len (some rel) rel v) rcS out = .ok () rcA out := by
+      simp [modifyFrontBlock, RM.modify_apply, hbl, rcA]
+    obtain ⟨rc2, out2, hbody, hq2, hf2, ht2⟩ := render_key_template reg root rcA rcA out lc (fuel + rest.length + 1) rel
+      (eachIterBlock b h path i len (some rel) rel v) brest hi hct hmc hde hl hr rfl (each_object_vars b h path i len rel v).2.2.2 (Quiet.refl _) hf
+    have hi2 : rc2.indentString = none := by rw [hq2.indent]; exact hi
+    have hct2 : rc2.currentTemplate = none := by rw [Quiet.template hq2]; exact hct
+    have hmc2 : rc2.modifiedCtx = none := by rw [hq2]; exact hmc
+    have hde2 : rc2.disableEscape = false := by rw [hq2]; exact hde
+    have hl2 : assocGet rc2.localHelpers ['@', 'k', 'e', 'y'] = none := by rw [hq2]; exact hl
+    have hb2 : rc2.blocks = eachIterBlock b h path i len (some rel) rel v :: brest := by rw [hq2.blocks]
+    obtain ⟨rc3, out3, hloop, ⟨b3, hq3⟩, hf3, ht3⟩ := ih fuel rc2 out2 _ brest (fun it hit => hkeys it (by simp [hit])) hi2 hct2 hmc2 hde2 hl2 hb2 hf2
+    refine ⟨rc3, out3, ?_, ⟨b3, ?_⟩, hf3, ?_⟩
+    · rw [show fuel + ((i, (some rel : Option Str), rel, v) :: rest).length + 7 = (fuel + rest.length + 7) + 1 by simp [List.length_cons]; omega]
+      simp only [eachLoop, RM.bind_def, RM.bnd_apply, hmod]
+      rw [show fuel + rest.length + 7 = fuel + rest.length + 1 + 6 by omega, hbody]
+      simp only []
+      rw [show fuel + rest.length + 1 + 6 = fuel + rest.length + 7 by omega, hloop]
+    · unfold Quiet at hq3 hq2 ⊢
+      rw [hq3, hq2]
+    · rw [ht3, ht2]; simp
+
+/-- the block element `{{#each v}}{{@key}}{{/each}}` compiles to, on an OBJECT with any number `n` of entries stored under `v`: the body is written once
+    per element – `n` times, in order – and the render state is left as it was (the scope pushed for the iteration is popped);
+    `n + 12` units of fuel above any amount suffice (the loop of the model spends one per element) -/
+theorem each_key_block_writes (reg : Registry) (root : Json) (rc0 : RC) (o : JObj) (lc : Nat × Nat)
+    (hb : rc0.blocks = [{}]) (hi : rc0.indentString = none) (hmc : rc0.modifiedCtx = none) (hct : rc0.currentTemplate = none)
+    (hde : rc0.disableEscape = false) (hlx : assocGet rc0.localHelpers ['@', 'k', 'e', 'y'] = none) (hrx : assocGet reg.helpers ['@', 'k', 'e', 'y'] = none)
+    (hl : assocGet rc0.localHelpers ['e', 'a', 'c', 'h'] = none) (hr : assocGet reg.helpers ['e', 'a', 'c', 'h'] = some .each)
+    (hsafe : Spec.indexSafe root [['v']] = true) (hj : Spec.descend root [['v']] = some (.obj o)) :
+    WritesTextK (o.toList.length + 15) reg root rc0 (.block (PlainText.ekHT (PlainText.ekBody lc)))
+      (o.toList.map (fun kv => reg.escape (Json.str kv.1).render)).flatten := by
+  intro fuel rc out hq hf
+  have hblocks : rc.blocks = [{}] := by rw [hq.blocks, hb]
+  have hev : evaluate2 root (.relative [.named ['v']] ['v']) rc out = .ok (.context (.obj o) [['v']]) rc out := by
+    have := C01.navigate_current_path_scope root {} [] ['v'] [] rc out (by simp [getInBlockParams, assocGet]) rfl (by simpa using hsafe)
+    simp only [C01.names, List.map_cons, List.map_nil] at this
+    simp only [evaluate2, RM.bind_def, RM.bnd_apply, RM.get_apply, hblocks, this, C01.blockValue, Spec.descend]
+    simp only [Option.bind]
+    have hj' : (Spec.step root ['v']).bind (fun v' => Spec.descend v' []) = some (.obj o) := by simpa [Spec.descend] using hj
+    simp [Spec.descend] at hj' ⊢
+    rw [hj']
+  have hmc' : rc.modifiedCtx = none := by rw [hq]; exact hmc
+  have hl' : assocGet rc.localHelpers ['e', 'a', 'c', 'h'] = none := by rw [hq]; exact hl
+  have hpath : Path.new ['v'] [.named ['v']] = .relative [.named ['v']] ['v'] := rfl
+  have hh : helperFromTemplate reg root (fuel + o.toList.length + 13) (PlainText.ekHT (PlainText.ekBody lc)) rc out
+      = .ok { name := ['e', 'a', 'c', 'h'], params := [⟨some ['v'], .context (.obj o) [['v']]⟩], hash := [], template := some (PlainText.ekBody lc), inverse := none, blockParam := none, block := true } rc out := by
+    rw [show fuel + o.toList.length + 13 = (fuel + o.toList.length + 10) + 1 + 1 + 1 by omega]
+    simp [helperFromTemplate, PlainText.ekHT, PlainText.eaOpen, HelperG.new, expandAsName, expandParams, expandParam, expandHash,
+      RM.bnd_apply, hmc', hpath, hev, Path.raw]
+  have hm1 := quiet_modifyAux rc0 rc (fun r => { r with contentProduced := false, indentBeforeWrite := rc.indentBeforeWrite || ((PlainText.ekHT (PlainText.ekBody lc)).indentBeforeWrite && r.trailingNewline) }) out hq (hq.flags _ _ _)
+  rw [show fuel + (o.toList.length + 15) = (fuel + o.toList.length + 13) + 1 + 1 by omega]
+  simp only [renderElem, renderHelper, RM.bind_def, RM.bnd_apply, hh, RM.get_apply, hl', hr, hm1]
+  have hibw : (PlainText.ekHT (PlainText.ekBody lc)).indentBeforeWrite = false := rfl
+  simp only [hibw, Bool.false_and, Bool.or_false]
+  -- the call of `each`
+  have hqA : Quiet rc0 { rc with contentProduced := false } := hq.flags _ _ _
+  let rcA : RC := { rc with contentProduced := false }
+  let items : List (Nat × Option Str × Str × Json) := o.toList.zipIdx.map (fun ((k, v), i) => (i, some k, k, v))
+  have hitems : items.length = o.toList.length := by simp [items]
+  obtain ⟨rc3, out3, hloop, ⟨b3, hq3⟩, hf3, ht3⟩ := eachLoop_key reg root lc
+    { name := ['e', 'a', 'c', 'h'], params := [⟨some ['v'], .context (.obj o) [['v']]⟩], hash := [], template := some (PlainText.ekBody lc), inverse := none, blockParam := none, block := true }
+    (some [['v']]) o.toList.length hrx items (fuel + 5) { rcA with blocks := { basePath := [['v']] } :: rcA.blocks } out { basePath := [['v']] } rcA.blocks
+    (by intro it hit; simp only [items, List.mem_map] at hit; obtain ⟨⟨⟨k, v⟩, i⟩, _, rfl⟩ := hit; rfl)
+    (by show rc.indentString = none; rw [hq.indent]; exact hi) (by show rc.currentTemplate = none; rw [Quiet.template hq]; exact hct)
+    (by show rc.modifiedCtx = none; exact hmc') (by show rc.disableEscape = false; rw [hq]; exact hde)
+    (by show assocGet rc.localHelpers ['@', 'k', 'e', 'y'] = none; rw [hq]; exact hlx) rfl hf
+  have hcall : callHelper reg root (fuel + o.toList.length + 13) .each { name := ['e', 'a', 'c', 'h'], params := [⟨some ['v'], .context (.obj o) [['v']]⟩], hash := [], template := some (PlainText.ekBody lc), inverse := none, blockParam := none, block := true } rcA out
+      = .ok () { rc3 with blocks := rc3.blocks.drop 1 } out3 := by
+    rw [show fuel + o.toList.length + 13 = (fuel + 5 + items.length + 7) + 1 by omega]
+    simp only [callHelper, HelperKind.hasInner, Bool.false_eq_true, ↓reduceIte, List.getElem?_cons_zero, PJ.json, SJ.asJson, PJ.contextPath,
+      SJ.contextPath, createBlock, Option.isNone_none, Bool.or_true, RM.withBlock, RM.bracket_apply]
+    unfold PlainText.ekBody at hloop ⊢
+    simp only [items, hitems] at hloop ⊢
+    rw [hloop]
+  rw [hcall]
+  simp only []
+  have hq4 : Quiet rc0 { rc3 with blocks := rc3.blocks.drop 1 } := by
+    have hrcA : Quiet rc0 rcA := hqA
+    unfold Quiet at hq3 hrcA ⊢
+    rw [hq3]
+    simp only [List.drop_succ_cons, List.drop_zero]
+    rw [hrcA]
+  have hqG : Quiet rc0 ((fun rc_1 : RC => if rc_1.contentProduced = true then { rc_1 with indentBeforeWrite := rc_1.trailingNewline } else { rc_1 with contentProduced := rc.contentProduced, indentBeforeWrite := rc.indentBeforeWrite }) { rc3 with blocks := rc3.blocks.drop 1 }) := by
+    by_cases hcp : rc3.contentProduced = true
+    · simp only [hcp, ↓reduceIte]; exact Quiet.flags hq4 _ _ _
+    · simp only [hcp, ↓reduceIte]; exact Quiet.flags hq4 _ _ _
+  refine ⟨_, _, quiet_modifyAux rc0 _ _ out3 hq4 hqG, hqG, hf3, ?_⟩
+  rw [ht3]
+  have : items.map (fun it => reg.escape (Json.str it.2.2.1).render) = o.toList.map (fun kv => reg.escape (Json.str kv.1).render) := by
+    simp only [items, List.map_map, Function.comp_def]
+    apply List.ext_getElem <;> simp
+  rw [this]
+
+/-- `{{#each v}}{{@key}}{{/each}}` -/
+abbrev eachKeySrc : Str := PlainText.ekSrc
+
+/-- **render(L ++ {{#each v}}{{@key}}{{/each}} ++ R) = L ++ esc(k1) esc(k2) … esc(kn) ++ R: every entry of an object is visited once, in the
+    map's order, and `@key` is the entry's key** – from the source string to the bytes, for EVERY text `L` that may stand before a
+    tag, EVERY text `R` without `{{`, EVERY object stored under `v` (with any number `n` of entries that the model's fuel covers:
+    `n + 33 ≤ 4000`; the empty object included – then nothing is written), every spelling of the keys and every escape function.
+    Through the regenerated grammar (the block's pairs by kernel evaluation), the loop of compile2, and the renderer:
+    `renderHelper`, the `each` helper – scope pushed, one iteration per entry by induction over the list (`eachLoop_key`: `@key`
+    read from the block the iteration set up), scope popped. -/
+theorem each_block_key_names_each_entry (r : Registry) (fs : FS) (L R : Str) (data : Json) (o : JObj) (hdev : r.dev = false)
+    (hL : L = [] ∨ PlainText.TextBeforeTag L) (hR : PlainText.noOpen R)
+    (heach : assocGet r.helpers ['e', 'a', 'c', 'h'] = some .each) (hrx : assocGet r.helpers ['@', 'k', 'e', 'y'] = none)
+    (hsafe : Spec.indexSafe data [['v']] = true) (hj : Spec.descend data [['v']] = some (.obj o))
+    (hlen : o.toList.length + 33 ≤ renderFuel) :
+    r.renderTemplate fs (L ++ eachKeySrc ++ R) data = .ok (L ++ (o.toList.map (fun kv => r.escape (Json.str kv.1).render)).flatten ++ R) := by
+  unfold Registry.renderTemplate Registry.renderTemplateToWrite Registry.renderTemplateWithContextToWrite
+    Registry.compileForRenderTemplate
+  obtain ⟨m, hcomp⟩ := PlainText.compile_text_ek_text L _ _ { preventIndent := r.preventIndent } hL (PlainText.textAfterTag_split R hR)
+  rw [← PlainText.split_ws R] at hcomp
+  rw [hcomp]
+  simp only [Registry.renderResolved, hdev, Bool.not_false, ↓reduceIte]
+  generalize Pest.lineCol (L ++ PlainText.ekSrc ++ R) (L.length + 11) = lc
+  let txt : Str := (o.toList.map (fun kv => r.escape (Json.str kv.1).render)).flatten
+  let ets : List (Elem × Str) := (if L = [] then [] else [(.raw L, L)]) ++ [(.block (PlainText.ekHT (PlainText.ekBody lc)), txt)]
+    ++ (if R = [] then [] else [(.raw R, R)])
+  have hel : (PlainText.leftT L L).elements ++ [Elem.block (PlainText.ekHT (PlainText.ekBody lc))] ++ (if R = [] then [] else [Elem.raw R])
+      = ets.map (·.1) := by
+    simp only [ets]
+    by_cases hLe : L = [] <;> by_cases hRe : R = [] <;> simp [hLe, hRe, PlainText.leftT, Tmpl.empty, Tmpl.elements]
+  have htxt : (ets.map (·.2)).flatten = L ++ txt ++ R := by
+    simp only [ets]
+    by_cases hLe : L = [] <;> by_cases hRe : R = [] <;> simp [hLe, hRe]
+  rw [hel]
+  have hw : ∀ p ∈ ets, WritesTextK (o.toList.length + 15) r data { ({ rootTemplate := none } : RC) with currentTemplate := none } p.1 p.2 := by
+    intro p hp
+    simp only [ets, List.mem_append, List.mem_singleton] at hp
+    rcases hp with (hp | rfl) | hp
+    · split at hp
+      · simp at hp
+      · simp at hp; subst hp; exact (writes_raw r data _ rfl L).toK _ (by omega)
+    · exact each_key_block_writes r data _ o lc rfl rfl rfl rfl rfl rfl hrx rfl heach hsafe hj
+    · split at hp
+      · simp at hp
+      · simp at hp; subst hp; exact (writes_raw r data _ rfl R).toK _ (by omega)
+  have hlen' : ets.length + (o.toList.length + 15) + 6 ≤ renderFuel := by
+    have h1 : (if L = [] then [] else [((Elem.raw L, L) : Elem × Str)]).length ≤ 1 := by split <;> simp
+    have h2 : (if R = [] then [] else [((Elem.raw R, R) : Elem × Str)]).length ≤ 1 := by split <;> simp
+    simp only [ets, List.length_append, List.length_singleton]
+    omega
+  have := render_writes_templateK (o.toList.length + 15) r data none ets m { rootTemplate := none } hlen' hw
+  simp only [Tmpl.name] at this ⊢
+  rw [this, htxt]
+
 
 
 /-- non-vacuity: three elements count 0 1 2 -/
